@@ -175,7 +175,9 @@ impl<const UNITLESS_NANOS_MULTIPLIER: u64> FromStr for TimeSpan<UNITLESS_NANOS_M
 					if unitless != 0 {
 						eprintln!("Warning: unitless non-zero time span values are deprecated and will be removed in an upcoming version");
 					}
-					Ok(Duration::from_nanos(unitless * UNITLESS_NANOS_MULTIPLIER))
+					Ok(Duration::from_nanos(
+						unitless.saturating_mul(UNITLESS_NANOS_MULTIPLIER),
+					))
 				},
 			)
 			.map(TimeSpan)
